@@ -1,1 +1,116 @@
-fn main(){ println!("hi"); }
+//! Deterministic simulation with fault injection for zertyz/reactive-mutiny -- see /verif/DESIGN.md
+//!
+//!   sim check <Cxx> [quick|thorough]      run the check of one property (VERIF_SEED, VERIF_BUDGET_S honoured)
+//!   sim replay <file> [--quiet]           re-execute a replay file: exit 1 if the recorded violation is reproduced
+#![allow(dead_code)]
+
+mod chan;
+mod ctx;
+mod engine_t;
+mod framework;
+mod harness;
+mod payload;
+mod rng;
+mod scn_uni;
+
+use framework::{check_scenarios, CheckCfg, Part, PartRunner, ReplayFile, Tier};
+use std::sync::Arc;
+
+const RULE_T: &str = "one evaluation = one simulated run (workload, sizes, fault rates and schedule all drawn from run_seed = f(VERIF_SEED, property, run index)); a run is non-trivial if the scheduler preempted a thread inside an operation at least once; distinct = distinct context-switch signatures (hash of the sequence of (from-thread, to-thread, code site) over all context switches of the run), counted with a hash set merged across workers";
+
+struct PropertyCheck {
+    parts: Vec<Box<dyn PartRunner>>,
+    rule: &'static str,
+    quick_s: u64,
+    thorough_s: u64,
+    assumptions: Vec<String>,
+}
+
+fn registry(property: &str) -> Option<PropertyCheck> {
+    Some(match property {
+        "C01" => PropertyCheck { parts: vec![Box::new(Part(Arc::new(scn_uni::C01)))], rule: RULE_T, quick_s: 25, thorough_s: 900, assumptions: vec![] },
+        "C04" => PropertyCheck { parts: vec![Box::new(Part(Arc::new(scn_uni::C04Uni)))], rule: RULE_T, quick_s: 25, thorough_s: 900, assumptions: vec![] },
+        _ => return None,
+    })
+}
+
+fn all_parts() -> Vec<Box<dyn PartRunner>> {
+    let mut v: Vec<Box<dyn PartRunner>> = vec![];
+    for p in ["C01", "C04"] {
+        if let Some(pc) = registry(p) {
+            v.extend(pc.parts);
+        }
+    }
+    v
+}
+
+fn main() {
+    let args: Vec<String> = std::env::args().collect();
+    if args.len() < 2 {
+        eprintln!("usage: sim check <Cxx> [quick|thorough] | sim replay <file> [--quiet]");
+        std::process::exit(2);
+    }
+    match args[1].as_str() {
+        "check" => {
+            let property = args.get(2).cloned().unwrap_or_default();
+            let tier = match args.get(3).map(|s| s.as_str()).or(std::env::var("VERIF_TIER").ok().as_deref()) {
+                Some("thorough") => Tier::Thorough,
+                _ => Tier::Quick,
+            };
+            let Some(pc) = registry(&property) else {
+                eprintln!("harness error: no check registered for property {}", property);
+                std::process::exit(2);
+            };
+            let cfg = CheckCfg::from_env(tier, pc.quick_s, pc.thorough_s);
+            println!("{} {}: VERIF_SEED={} budget={}s workers={}", property, tier.name(), cfg.verif_seed, cfg.budget.as_secs(), cfg.workers);
+            let outcome = check_scenarios(&property, &cfg, pc.parts, pc.rule, pc.assumptions);
+            std::process::exit(outcome.exit_code);
+        }
+        "replay" => {
+            let path = args.get(2).cloned().unwrap_or_default();
+            let quiet = args.iter().any(|a| a == "--quiet");
+            let text = match std::fs::read_to_string(&path) {
+                Ok(t) => t,
+                Err(e) => {
+                    eprintln!("harness error: cannot read {}: {}", path, e);
+                    std::process::exit(2);
+                }
+            };
+            let file: ReplayFile = match serde_json::from_str(&text) {
+                Ok(f) => f,
+                Err(e) => {
+                    eprintln!("harness error: cannot parse {}: {}", path, e);
+                    std::process::exit(2);
+                }
+            };
+            let parts = all_parts();
+            let Some(part) = parts.iter().find(|p| p.name() == file.scenario) else {
+                eprintln!("harness error: unknown scenario {}", file.scenario);
+                std::process::exit(2);
+            };
+            match part.replay_file(&file, !quiet) {
+                Ok(true) => {
+                    if !quiet {
+                        println!("VIOLATION property={} replay={}", file.property, path);
+                        println!("  reproduced: {} [{}]", file.violation.oracle, file.violation.key);
+                    }
+                    std::process::exit(1);
+                }
+                Ok(false) => {
+                    if !quiet {
+                        println!("not reproduced: the recorded violation [{}] did not occur", file.violation.key);
+                    }
+                    std::process::exit(0);
+                }
+                Err(e) => {
+                    eprintln!("harness error: {}", e);
+                    std::process::exit(2);
+                }
+            }
+        }
+        other => {
+            eprintln!("unknown command {}", other);
+            std::process::exit(2);
+        }
+    }
+}
